@@ -126,6 +126,8 @@ def new_agg():
 
 
 def merge_result(agg, res, case, seed, mode, index):
+    for sub in res.get('multi') or ():
+        merge_result(agg, sub, case, seed, mode, index)
     agg['evaluations'] += 1
     if mode == 'enum':
         agg['enum'] += 1
@@ -151,7 +153,8 @@ def merge_result(agg, res, case, seed, mode, index):
     for v in res.get('violations', []):
         agg['viol_count'] += 1
         if len(agg['violations']) < 40:
-            agg['violations'].append({'v': v, 'case': case, 'seed': seed,
+            vc = v.pop('case', None) if isinstance(v, dict) else None
+            agg['violations'].append({'v': v, 'case': vc or case, 'seed': seed,
                                       'mode': mode, 'index': index})
 
 
